@@ -9,6 +9,11 @@ def cmd(pid, tier):
 
 # id -> (category, engine, technique, level text, level note, design ref)
 CHECKS = {
+ "C03": ("model_checking", "SCHED",
+   "stateless DFS over all release orders of front-end operations, server answers (every permutation, duplication, omission) and the client's background tasks under a controlled scheduler",
+   "For 2-3 concurrent operations out of {request, subscribe, batch, notification} x per-message answer pattern {ok, error, omitted, twice} x extra server messages {stray notifications, never-sent id, packed array} x id kind, every front-end start and every delivery is a scheduling point; the whole schedule tree is explored when it has <= 6k (thorough 300k) executions, else all schedules with <= 2 (thorough 3) deviations. On every execution each completed future must hold the payload of the delivered message whose id equals the id in that call's own wire bytes, must not complete before that delivery, an unanswered call stays pending, and RestartNeeded only appears after a message that matches nothing pending. The client's wire output is checked for JSON-RPC 2.0 well-formedness.",
+   "Interleaving granularity = harness points plus the send task's before_handle point (thorough); 4+ concurrent operations not covered.",
+   "DESIGN.md §6 C03"),
  "C09": ("model_checking", "SCHED+ENUM",
    "stateless DFS over all release orders of the real client's tasks under a controlled scheduler (hook points in harness transports, front-end actors, environment events and the library's send/read/shutdown tasks), with fault enumeration at every step",
    "For every client history (1-3 front-end operations; thorough up to 4) x every fault kind (n-th send fails, receive error, peer close, non-JSON message, unknown-id response, empty array, non-numeric id, empty object) x every injection position x both id kinds, the complete schedule tree is explored when it has <= 3k (thorough 200k) executions, else all schedules with <= 2 (thorough 3) deviations; on every execution: nothing pending at quiescence, every failed op carries the injected cause (never the 'reason could not be found' placeholder), streams ended, is_connected false, on_disconnect resolved with the cause, no panic. Every N-th and every violating schedule is re-executed and must reproduce bit for bit. Plus ~100 hostile server messages (u64-boundary ids, 10^4-element array, depth-200 nesting) x {0,1} pending calls followed by a sentinel call, and one real-time leg for RequestTimeout.",
